@@ -2,6 +2,7 @@
 import copy
 import glob
 import os
+import re
 import tempfile
 
 from hypothesis import strategies as st
@@ -135,15 +136,20 @@ class C04(Prop):
             try:
                 sdn.compose(nl, path)
             except Exception as e:  # noqa
-                res.violate("C04:compose-raises:%s:%s" % (type(e).__name__, tr), repr(e)[:400])
+                sig = "C04:compose-raises:%s:%s" % (type(e).__name__, tr)
+                if tr == "flatten" and "multiple cables appear to be connected to a single assign" not in str(e):
+                    sig += ":other"  # the recorded finding is that one refusal only
+                res.violate(sig, repr(e)[:400])
                 return res
             text2 = open(path).read()
             try:
                 nl2 = sdn.parse(path)
             except Exception as e:  # noqa
                 sdn.namespace_manager.default = "DEFAULT"
-                res.violate("C04:reader-rejects-written-text:%s:%s" % (type(e).__name__, tr),
-                            "%r\n%s" % (e, text2[:1500]))
+                sig = "C04:reader-rejects-written-text:%s:%s" % (type(e).__name__, tr)
+                if tr == "flatten" and not re.search(r"but got \S*/", str(e)):
+                    sig += ":other"  # the recorded finding is the slash-joined names only
+                res.violate(sig, "%r\n%s" % (e, text2[:1500]))
                 return res
         after = fold(gen_verilog.view(nl2))
         if keep is not None:
